@@ -2,12 +2,16 @@ package main
 
 import (
 	"fmt"
+	"os"
+	"os/exec"
+	"path/filepath"
 	"time"
 
 	"pgregory.net/rapid"
 
 	"verif/inproc"
 	"verif/res"
+	"verif/rt"
 	"verif/specgen"
 )
 
@@ -15,7 +19,7 @@ func init() {
 	register(&Check{
 		ID: "C18",
 		Rule: "pairs (S, S'): S rapid-drawn from the JSON, parameter/body, response and composition families; S' = inline-all (every $ref to a schema, parameter, header, request body or response replaced by a copy of its ultimate target), hoist-all (every inline schema / parameter / response moved to a fresh component, one per site) or a rapid-chosen partial mix, each site rewritten only where the result stays inside the dialect; both are generated and compiled into one binary; " +
-			"oracle (metamorphic): shared raw requests (path segments, query, headers from the per-type lexeme classes; JSON bodies from the schema-directed generator and their single-fault mutants) must be routed to the same template, accepted/rejected alike and parsed to equal values after projection to a type-name-free tree; response values drawn in S and injected into S' must be written with the same status, header map and JSON-equivalent body; a rewritten side that does not compile while the original does is a violation; " +
+			"oracle (metamorphic): shared raw requests (path segments, query, headers from the per-type lexeme classes; JSON bodies from the schema-directed generator and their single-fault mutants) must be routed to the same template, accepted/rejected alike and parsed to equal values after projection to a type-name-free tree; response values drawn in S and injected into S' must be written with the same status, header map and JSON-equivalent body; a rewritten side that does not compile while the original does is a violation; byte-level companion: with customTypes.ignore in the config, a parameter/body spec and the same spec with x-goag-go-type annotations on a third of its primitive schemas (inline and component parameter schemas included) must generate identical files; " +
 			"non-trivial = pair whose rewrite changed >=1 site; distinct by (pair, operation, input class)",
 		Assume:    []string{"pairs where goag refuses one side are outside the domain", "hoisting never merges two sites into one component", "composite (allOf/oneOf) targets are not inlined at non-component positions"},
 		Main:      c18Main,
@@ -84,5 +88,97 @@ func c18Main(e *Env) (*res.Result, error) {
 		}
 		specs = append(specs, p.a, p.b)
 	}
-	return compiledMain(e, "C18", specs, false, 25*time.Minute)
+	r, err := compiledMain(e, "C18", specs, false, 25*time.Minute)
+	if r != nil {
+		c18IgnoredCustomTypes(e, r)
+	}
+	return r, err
+}
+
+// c18IgnoredCustomTypes is a byte-level metamorphic companion of C18: with
+// `customTypes: {ignore: true}` in the config an x-goag-go-type annotation has no
+// effect, wherever it stands - on an inline parameter schema, on the schema of a
+// components/parameters entry that operations $ref, on a component schema, on a
+// property. The spec with annotations and the spec without them must therefore
+// generate byte-identical packages (run in child processes: goag is not used
+// concurrently in one process).
+func c18IgnoredCustomTypes(e *Env, r *res.Result) {
+	self, err := os.Executable()
+	if err != nil {
+		return
+	}
+	n := 24
+	if !e.Quick() {
+		n = 200
+	}
+	dir := filepath.Join(e.Scratch, "c18ignore")
+	os.MkdirAll(dir, 0o755)
+	disabled := disabledTags()
+	var lastFail *res.Failure
+	prop := func(t *rapid.T) {
+		c := specgen.NewCtx(t, disabled)
+		c.NeedClient = true
+		d := c.ParamsDoc(true, true)
+		plain := d.JSON()
+		var root map[string]any
+		if jsonUnmarshal(plain, &root) != nil {
+			return
+		}
+		var sites []site
+		collectSites(root, nil, &sites)
+		marked := 0
+		for _, s := range sites {
+			m, ok := s.get().(map[string]any)
+			if !ok || m["in"] != nil {
+				continue
+			}
+			ty, _ := m["type"].(string)
+			if ty == "" || ty == "array" || ty == "object" || rapid.IntRange(0, 2).Draw(t, "annotate") != 0 {
+				continue
+			}
+			m["x-goag-go-type"] = rapid.SampledFrom([]string{"github.com/acme/types.Tenant", "types.ID", "github.com/acme/shop/pkg.Money"}).Draw(t, "gotype")
+			marked++
+		}
+		if marked == 0 {
+			return
+		}
+		annotated := mustIndent(root)
+		gen := func(name string, spec []byte) (map[string]string, string) {
+			sp := filepath.Join(dir, name+".json")
+			out := filepath.Join(dir, name)
+			os.RemoveAll(out)
+			os.MkdirAll(out, 0o755)
+			os.WriteFile(sp, spec, 0o644)
+			cmd := exec.Command(self, "gen1", sp, out, "1")
+			cmd.Env = append(os.Environ(), "VERIF_GEN1_CUSTOM_TYPES_IGNORE=1")
+			bs, _ := cmd.CombinedOutput()
+			dg, _ := dirDigest(filepath.Join(out, "gen"))
+			delete(dg, "spec_file.go") // embeds the spec text, which differs by construction
+			return dg, string(bs)
+		}
+		a, outA := gen("plain", plain)
+		b, outB := gen("annotated", annotated)
+		r.Evaluations++
+		if len(a) == 0 || len(b) == 0 {
+			if (len(a) == 0) != (len(b) == 0) {
+				lastFail = &res.Failure{Property: "C18", Kind: "ignored-custom-types:one-side-refused", Clause: "ignored-custom-types",
+					Detail: fmt.Sprintf("with customTypes.ignore the annotated spec and the plain spec must fare alike: plain -> %d files (%s), annotated -> %d files (%s)", len(a), clip(outA, 200), len(b), clip(outB, 200)),
+					Replay: map[string]any{"openapi.json": string(annotated), "plain.openapi.json": string(plain), "config.json": `{"client":true,"custom_types_ignore":true}`}}
+				t.Fatalf("%s", lastFail.Detail)
+			}
+			return
+		}
+		r.NonTrivial("C18-ignore", hashStr(string(annotated)))
+		r.Label("ignored-custom-types:compared")
+		if digestString(a) != digestString(b) {
+			lastFail = &res.Failure{Property: "C18", Kind: "ignored-custom-types:output-differs", Clause: "ignored-custom-types",
+				Detail: fmt.Sprintf("customTypes.ignore is on, yet %d x-goag-go-type annotations changed the generated files [%s]", marked, diffDigests(a, b)),
+				Replay: map[string]any{"openapi.json": string(annotated), "plain.openapi.json": string(plain), "config.json": `{"client":true,"custom_types_ignore":true}`}}
+			t.Fatalf("%s", lastFail.Detail)
+		}
+	}
+	ok, _ := rt.Check("C18-ignore", rt.Seed(e.Seed, rt.SeedStr("C18-ignore")), n, 20*time.Second, prop)
+	if !ok && lastFail != nil {
+		r.Fail(*lastFail)
+	}
 }
